@@ -8,23 +8,23 @@ open Llir Llir.Whole
 /-- **Whole modules round-trip**: a module made of identified-struct type definitions, global variables with nested aggregate constants,
     function definitions (any number of parameters and blocks, the 82 instruction rows) and a metadata section, printed as ONE text the way
     `Module.String()` prints it, is split into its top-level entities, read and translated back to the module itself — provided each part is in
-    its fragment (`Core2.WF`, type definitions already in natural-sort order, `Core3.wfIn`, `Meta.wf`, the keywords of every global variable one of each family in the grammar's order: `gleadsOK`) and the cross-fragment conditions hold
+    its fragment (`Core2.WF`, type definitions already in natural-sort order, `Core3.wfIn`, `Meta.wf`, the keywords of every global variable one of each family in the grammar's order: `gleadsOK`; alignments within 64 bits: `gtailsOK`) and the cross-fragment conditions hold
     (`crossOK`: no name shared by two globals / functions, every named type a function mentions is defined; `Core3.wfIn (genvOf …)`: every `@name`
     operand of a function body is a global variable or a function of the module and is written at the type of a reference to it). -/
 theorem whole_roundtrip (useHex : Int → Bool) (m : Module)
     (h2 : Core2.WF ⟨m.typedefs, m.globals⟩) (hs : Core2.sortDefs m.typedefs = m.typedefs)
     (h3 : ∀ f ∈ m.funcs, Core3.wfIn (genvOf m.globals m.funcs) f = true) (h3m : ∀ f ∈ m.funcs, Core3.mdWF useHex f = true)
-    (hm : Meta.wf m.md = true) (hx : crossOK m = true) (hgl : gleadsOK m.globals = true) :
+    (hm : Meta.wf m.md = true) (hx : crossOK m = true) (hgl : gleadsOK m.globals = true) (hgt : gtailsOK m.globals = true) :
     parse (printModule useHex m) = some m :=
-  parse_print useHex m h2 hs h3 h3m hm hx hgl
+  parse_print useHex m h2 hs h3 h3m hm hx hgl hgt
 
 /-- and the printed text is a fixpoint -/
 theorem whole_fixpoint (useHex : Int → Bool) (m : Module)
     (h2 : Core2.WF ⟨m.typedefs, m.globals⟩) (hs : Core2.sortDefs m.typedefs = m.typedefs)
     (h3 : ∀ f ∈ m.funcs, Core3.wfIn (genvOf m.globals m.funcs) f = true) (h3m : ∀ f ∈ m.funcs, Core3.mdWF useHex f = true)
-    (hm : Meta.wf m.md = true) (hx : crossOK m = true) (hgl : gleadsOK m.globals = true) :
+    (hm : Meta.wf m.md = true) (hx : crossOK m = true) (hgl : gleadsOK m.globals = true) (hgt : gtailsOK m.globals = true) :
     (parse (printModule useHex m)).map (printModule useHex) = some (printModule useHex m) := by
-  rw [parse_print useHex m h2 hs h3 h3m hm hx hgl]; rfl
+  rw [parse_print useHex m h2 hs h3 h3m hm hx hgl hgt]; rfl
 
 /-- non-vacuity: the samples of the three fragments put together — a recursive struct type `%N`, a packed constant global `@g`, a global
     `@c = global i32 5`, the function `@f` of `core3Sample`, a function `@h` whose body loads from and stores to `@c` (the load carries the attachments `!dbg !7, !\31a !4294967296`, the `ret` carries `!x !0`), converts the address of the
@@ -45,7 +45,7 @@ def extSample : Core3.Func := ⟨.void, [101, 120, 116], [(.int 32, .id 0)], [],
 def varSample : Core3.Func := ⟨.int 32, [118, 102], [(.ptr (.int 8) 0, .id 0)], [], [], {}, [[4]], true⟩
 def var0Sample : Core3.Func := ⟨.void, [118, 48], [], [], [], {}, [], true⟩
 
-def wholeSample : Module := ⟨sample.typedefs, sample.globals ++ [⟨[99], false, .int 32, .int 5, [3, 9, 12, 14, 17, 20, 22]⟩], [core3Sample, hSample, extSample, varSample, var0Sample], metaSample⟩
+def wholeSample : Module := ⟨sample.typedefs, sample.globals ++ [⟨[99], false, .int 32, .int 5, [3, 9, 12, 14, 17, 20, 22], { sect := [46, 100, 34, 97], partition := [112], align := 8 }⟩], [core3Sample, hSample, extSample, varSample, var0Sample], metaSample⟩
 
 example : Core2.WF ⟨wholeSample.typedefs, wholeSample.globals⟩ := by
   refine ⟨?_, ?_, ?_, by decide, by decide, by decide⟩
@@ -65,6 +65,8 @@ example : Meta.wf wholeSample.md = true := by decide +kernel
 example : crossOK wholeSample = true := by decide +kernel
 /-- (`@c = internal dso_local hidden dllexport thread_local(initialexec) unnamed_addr externally_initialized global i32 5`) -/
 example : gleadsOK wholeSample.globals = true := by decide +kernel
+/-- (… `global i32 5, section ".d\22a", partition "p", align 8`) -/
+example : gtailsOK wholeSample.globals = true := by decide +kernel
 
 /-- and an attachment that names a metadata ID the module does not define is rejected: `ret i32 %1, !x !0` without the definition `!0` -/
 example : parse (printModule (fun _ => false) { wholeSample with md := ⟨[], [⟨7, true, .nil⟩, ⟨4294967296, false, .nil⟩]⟩ }) = none := by decide +kernel
